@@ -362,13 +362,14 @@ def interpret_cc():
         res["echo"] = "raw"
     elif ("} else if (t == QID_T) { printAstQualifiedIdentifier(**(astNode.children->begin())); }" in b
           and "std::cout << \"(\"; printAstQualifiedIdentifier(**node_iter); node_iter++; std::cout << \" \";" in b
-          and "std::cout << \"(! \"; printAstTermNode(named_term);" in b
+          and ("std::cout << \"(! \"; printAstTermNode(named_term);" in b or "std::cout << \"(!\"; printAstTermNode(named_term);" in b)
           and "std::cout << \" \" << printedSymbol(sym.getValue());" in b
           and "std::cout << \"(\" << printedSymbol(vb->getValue()) << \" \";" in b
           and "std::string printedSymbol(char const * name) { return Logic::protectName(name, false); }" in norm(t)):
         res["echo"] = "fixed"
     else:
         raise TranslateError("printAstTermNode not recognised")
+    res["bang_glued"] = "std::cout << \"(!\"; printAstTermNode(named_term);" in b
     u = strip_cpp_comments(read("src/unsatcores/UnsatCore.cc"))
     b = norm(function_body(u, r"void\s+NamedUnsatCore::printTerm\s*\(", "NamedUnsatCore::printTerm"))
     if b == "assert(termNames.contains(term)); os << termNames.nameForTerm(term);":
@@ -461,6 +462,7 @@ def generate():
     L.append("Definition gen_assignment_seekp_unguarded : bool := %s." % coq_bool(ip["assign"]["seekp"]))
     L.append("Definition gen_assignment_text_as_format : bool := %s." % coq_bool(ip["assign"]["fmt"]))
     L.append("Definition gen_echo_raw_names : bool := %s." % coq_bool(ip["echo"] == "raw"))
+    L.append("Definition gen_echo_bang_glued : bool := %s." % coq_bool(ip["bang_glued"]))
     L.append("Definition gen_core_raw_names : bool := %s." % coq_bool(ip["core"] == "raw"))
     L.append("Definition gen_sort_raw_names : bool := %s." % coq_bool(ip["sort"] == "raw"))
     L.append("Definition gen_clash_by_term : bool := %s." % coq_bool(ip["clash"] == "by-term"))
